@@ -203,12 +203,12 @@ def hash_eq_consistency(R, I):
     def val(tag): return Adt('Decoded', None, {(None, F('Decoded', 'bytes')): Obj('vec', field='bytes', tag=tag), (None, F('Decoded', 'original')): Obj('str', field='original', tag=tag), (None, F('Decoded', 'spooky')): Obj('phantom', field='spooky')})
     saved = list(I.models); I.models[:0] = ms
     try:
-        for what, fn, args in (('Hash', find('::hash', '_1: &Decoded<T>, _2: &mut H'), lambda st: [Ref(st.alloc(val('a'))), Ref(st.alloc(Obj('hasher')))]),
+        for what, fn, args in (('Hash', find('::hash', '_1: &Decoded<T>, _2: &mut '), lambda st: [Ref(st.alloc(val('a'))), Ref(st.alloc(Obj('hasher')))]),
                                ('PartialEq', find('::eq', '_1: &Decoded<T>, _2: &Decoded<T>'), lambda st: [Ref(st.alloc(val('a'))), Ref(st.alloc(val('b')))])):
             if fn is None:
                 R.inconclusive.append(f'<Decoded<T> as {what}> not found in the MIR'); continue
             st = State(); st.env['fs'] = {}
-            I.push_call(st, fn, args(st), None, None, generics={'T': 'Hex', 'H': 'H'})
+            I.push_call(st, fn, args(st), None, None, generics={'T': 'Hex', 'H': 'H', '__H': 'H'})
             done = []; I.run(st, done.append)
             R.check_interp_clean(I, f'<Decoded<T> as {what}>')
             for s_ in done:
